@@ -104,9 +104,12 @@ theorem closeOthers_undisturbed (w : World) (i j : Nat) (l : List Nat) :
 theorem setScale_isolated (w : World) (i k j : Nat) (h : i ≠ j) :
     (setScale w i k).conns[j]? = w.conns[j]? := by
   unfold setScale
-  cases w.conns[i]? with
-  | none => rfl
-  | some c => simp only; rw [modConn_get_ne _ _ _ _ h]
+  simp only
+  split
+  · rfl
+  · cases w.conns[i]? with
+    | none => rfl
+    | some c => simp only; rw [modConn_get_ne _ _ _ _ h]
 
 theorem openFt_isolated (v : Variant) (w : World) (i j : Nat) (h : i ≠ j) :
     (openFt v w i).conns[j]? = w.conns[j]? := by
